@@ -195,7 +195,8 @@ def getters(sg, rule):
         run.analysed_fn(f"{cls.name}.{n}")
     g1 = ("res", "@", f"self.{sg.MLT}.get", (), ())
     g2 = ("res", "@", f"self.{sg.MoLT}.get", (), ())
-    off = ("field0", "_loss_direction")
+    offs = [t for t in ir.subterms(ml.ret) if t[0] == "field0" and prog.summarise(cls, "__init__").fields.get(t[1], ("x",))[0] == "gate"]
+    off = offs[0] if offs else ("field0", "_loss_direction")
     a, b, e = ir.strip_sites(ml.ret), ir.strip_sites(mo.ret), ir.strip_sites(ex.ret)
     atoms = {g1: "M", g2: "L", off: "d"}
     run.check(same(a, ("op", "+", g1, off), atoms), rule, "getter.marginal", f"{ml.path}:{ml.fn.lineno}",
@@ -211,7 +212,7 @@ def getters(sg, rule):
               f"explained_loss must equal marginal - model loss (the offset cancels); found {ir.show_nl(ex.ret)[:200]}",
               "(M + d) - (L + d) == M - L in normal form")
     init = prog.summarise(cls, "__init__")
-    d = init.fields.get("_loss_direction")
+    d = init.fields.get(off[1])
     okd = d is not None and d[0] == "gate" and d[1] == ("param", "loss_bigger_is_better") and const_value(d[2]) == 1 \
         and const_value(d[3]) == 0
     run.check(okd, rule, "getter.offset", f"{init.path}:{init.fn.lineno}", f"{cls.name}.__init__",
